@@ -35,11 +35,15 @@ def dec(v):
             return np.array(v['nd'], dtype=v.get('dt', 'float64'))
         if 'c' in v:
             return complex(*v['c'])
+        if 'np' in v:
+            return np.dtype(v.get('dt', 'float64')).type(v['np'])
     raise ValueError(f'cannot decode value {v!r}')
 
 
 def kind_of(v):
     """Coefficient kind of an *encoded* input value."""
+    if isinstance(v, bool):
+        return 'bool'
     if isinstance(v, int):
         return 'int'
     if isinstance(v, str):
@@ -52,6 +56,8 @@ def kind_of(v):
         return 'ndarray'
     if 'c' in v:
         return 'complex'
+    if 'np' in v:
+        return 'numpy-scalar'
     return '?'
 
 
